@@ -109,6 +109,13 @@ theorem c03_synth (ops : Ops Pkg) (last : Option Pkg) :
     · left; simp [h, delivered]
     · right; simp only [Bool.not_eq_true] at h; simp [h, delivered]
 
+/-- a header-only packet (whatever its status bits, the end-of-message bit included) is handed on as
+a package of its own and leaves the receive state untouched: it cannot end, start or disturb a
+response (seeded change C03-4 put it through the packet queue) -/
+theorem c03_header_only_transparent (ops : Ops Pkg) (rx : Rx Pkg) (h : Header) :
+    (rx.writeHeaderOnly ops h).1 = rx := by
+  unfold Rx.writeHeaderOnly; split <;> rfl
+
 /-! ## sequences of responses -/
 
 theorem feed_append (ops : Ops Pkg) : ∀ (a b : List (Bytes × Bool)) (rx : Rx Pkg),
